@@ -14,8 +14,8 @@ import collections
 from . import drv
 
 VERIF = os.path.dirname(os.path.dirname(os.path.abspath(__file__)))
-EVIDENCE_DIR = os.path.join(VERIF, "evidence")
-REPLAY_DIR = os.path.join(VERIF, "out", "replays")
+EVIDENCE_DIR = os.environ.get("CV_EVIDENCE_DIR") or os.path.join(VERIF, "evidence")
+REPLAY_DIR = os.environ.get("CV_REPLAY_DIR") or os.path.join(VERIF, "out", "replays")
 KNOWN_FILE = os.path.join(VERIF, "known_findings.json")
 
 LEVELS = {
